@@ -344,6 +344,40 @@ def render_isolation(ctx):
         later = [c for c in walk_func(gk) if isinstance(c, ast.Call) and isinstance(c.func, ast.Attribute) and dotted(c.func.value) == name and c.func.attr in ("update", "setdefault", "pop", "clear", "__setitem__") and c.lineno > s.lineno and _same_branch(s, c)]
         later += [t for t in walk_func(gk) if isinstance(t, ast.Subscript) and isinstance(t.ctx, ast.Store) and dotted(t.value) == name and t.lineno > s.lineno and _same_branch(s, t)]
         ctx.check(not later, "memo-published-complete:%d" % (s.lineno - gk.lineno), db.where(s), "the per-def cache arguments are stored in the shared _def_regions and modified afterwards (%s): a second thread's first call of the cached def sees the half-built entry and runs with the wrong cache arguments" % [src(x) for x in later][:2], "stored after it is completely built")
+    # ... and an alias of the shared memo (read back from it, or published into it earlier on the path) is never mutated
+    g = cfgmod.function_cfg(gk)
+    rr = flow.Reaching(gk)
+    muts = []
+    for x in walk_func(gk):
+        if isinstance(x, ast.Subscript) and isinstance(x.ctx, (ast.Store, ast.Del)) and isinstance(x.value, ast.Name):
+            muts.append((x, x.value.id))
+        elif isinstance(x, ast.Call) and isinstance(x.func, ast.Attribute) and isinstance(x.func.value, ast.Name) and x.func.attr in ("update", "setdefault", "pop", "clear", "__setitem__", "popitem"):
+            muts.append((x, x.func.value.id))
+    bad_alias = []
+    for x, name in muts:
+        st = enclosing_stmt(x)
+        try:
+            defs = rr.defs_at(st, name)
+        except AnalysisError:
+            defs = set()
+        for d in defs:
+            if isinstance(d, ast.Assign) and isinstance(d.value, ast.Subscript) and dotted(d.value.value) == "self._def_regions":
+                bad_alias.append((x, "it was read from the shared _def_regions at line %d" % d.lineno))
+            if isinstance(d, ast.Assign) and isinstance(d.value, ast.Call) and dotted(d.value.func) in ("self._def_regions.get", "self._def_regions.setdefault"):
+                bad_alias.append((x, "it was read from the shared _def_regions at line %d" % d.lineno))
+        for s, pname in pubs:
+            if pname != name or s is st:
+                continue
+            redefs = [n_ for d in ast.walk(gk) if isinstance(d, ast.Assign) and any(isinstance(t, ast.Name) and t.id == name for t in d.targets) and d is not s for n_ in g.nodes_of(d)]
+            for sn in g.nodes_of(s):
+                for tn in stmt_nodes(g, x):
+                    if g.path_avoiding(sn, [tn], redefs, kinds=("n",)):
+                        bad_alias.append((x, "it was stored into the shared _def_regions at line %d and not rebound since" % s.lineno))
+    if bad_alias:
+        x, why = bad_alias[0]
+        ctx.violation("memo-alias-mutated", db.where(x), "`%s` mutates a dictionary that may be the per-def entry shared by every render of the template (%s): concurrent renders overwrite each other's value (e.g. the Context handed to the cache backend)" % (src(enclosing_stmt(x)), why))
+    else:
+        ctx.ok("memo-alias-mutated", db.where(gk), "%d mutation sites in _get_cache_kw; none on an alias of the shared memo" % len(muts))
     ctx.note("stores_scanned", n_scanned)
     ctx.require(n_scanned >= 30, "write-effect scan saw only %d stores in runtime.py/cache.py" % n_scanned)
     # per-render classification of what remains: Context.* / Namespace.* / stacks store into self or locals
